@@ -128,6 +128,9 @@ def fragments(rnd, n):
                     lines.append(depth[-1] + "w = 2")
                 elif rr < 0.7:
                     lines.append(rnd.choice(["", "   ", "\t", "# c", "      # deep", "\f", "  \f"]))
+                elif rr < 0.78:
+                    # a line that holds only a backslash continuation after (some) indentation
+                    lines.append(rnd.choice(["", depth[-1], depth[-1] + "  ", " ", "\t"]) + "\\")
                 else:
                     lines.append(depth[-1] + rnd.choice(["a = 1", "b(2)", "c; d", "e = [\n1,\n   2]", "g = '''\n  x\n'''"]))
             yield ("\r\n" if rnd.random() < 0.15 else "\n").join(lines) + rnd.choice(["\n", "", "\n\n", "\n  ", "\n# end"])
